@@ -53,8 +53,8 @@ Record st := mkSt {
   next_timer : nat;
   next_cb : nat;
   last_ok : list (key * Z);     (* ghost: time of the last accepted template per key, cleared by an invalidation *)
-  tick : Z                      (* constant: how far the clock moves on each clock read by the collector's own
-                                   goroutine (0 = time stands still inside addTemplate) *)
+  tick : Z                      (* constant: how far the clock moves after each clock operation (Now, AfterFunc,
+                                   Reset) of addTemplate (0 = time stands still inside addTemplate) *)
 }.
 
 Definition init_tick (tk : Z) : st := mkSt 0 [] [] [] 0 0 [] tk.
@@ -104,6 +104,10 @@ Definition after_func (k : key) (d : Z) (s : st) : nat * st :=
 Definition clock_read (s : st) : Z * st :=
   (now s, mkSt (now s + tick s) (tpls s) (timers s) (inflight s) (next_timer s) (next_cb s) (last_ok s) (tick s)).
 
+(* time passes (by tick) after a clock operation made by the collector's own goroutine *)
+Definition clock_tick (s : st) : st :=
+  mkSt (now s + tick s) (tpls s) (timers s) (inflight s) (next_timer s) (next_cb s) (last_ok s) (tick s).
+
 (* ---------- process.go ---------- *)
 (* addTemplate, protocol "udp" (process.go:413-459) *)
 Definition add_template (ttl : Z) (k : key) (tag : N) (s : st) : st :=
@@ -113,13 +117,13 @@ Definition add_template (ttl : Z) (k : key) (tag : N) (s : st) : st :=
       let '(t0, s0) := clock_read s in
       let expiry := t0 + ttl in
       let '(t, s1) := after_func k ttl s0 in
-      with_tpls s1 (upd key_eqb k (mkTpl tag expiry t) (tpls s1))
+      clock_tick (with_tpls s1 (upd key_eqb k (mkTpl tag expiry t) (tpls s1)))
   | Some p =>
       (* same object: ies and expiryTime overwritten, expiryTimer.Reset(ttl) *)
       let '(t0, s0) := clock_read s in
       let expiry := t0 + ttl in
       let s1 := with_tpls s0 (upd key_eqb k (mkTpl tag expiry (t_timer p)) (tpls s0)) in
-      timer_reset (t_timer p) ttl s1
+      clock_tick (timer_reset (t_timer p) ttl s1)
   end.
 
 (* deleteTemplateWithConds (process.go:467-493); the pruning of an empty domain map is visible
@@ -196,7 +200,7 @@ Record gst := mkG { g_now : Z; g_ok : list (key * Z) }.
 Definition ginit : gst := mkG 0 [].
 Definition gstep (tk : Z) (g : gst) (a : act) : gst :=
   match a with
-  | ATemplate k _ => mkG (g_now g + tk) (upd key_eqb k (g_now g) (g_ok g))
+  | ATemplate k _ => mkG (g_now g + tk + tk) (upd key_eqb k (g_now g) (g_ok g))
   | ABad k => mkG (g_now g) (del key_eqb k (g_ok g))
   | AAdvance d => if d <? 0 then g else mkG (g_now g + d) (g_ok g)
   | _ => g
